@@ -146,7 +146,7 @@ func fitTag(fits bool) string {
 func c15Cases(c *Ctx) []c15Case {
 	maxL, maxCap := 3, 5
 	if !c.Quick() {
-		maxL, maxCap = 4, 9
+		maxL, maxCap = 5, 11
 	}
 	var out []c15Case
 	for sl := 0; sl <= maxL; sl++ {
